@@ -31,6 +31,8 @@ type world struct {
 	funcs  map[*types.Func]*ast.FuncDecl
 	infoOf map[*ast.FuncDecl]*types.Info
 	repo   string
+	// side result of respSpec: where the words of an array-valued sequence number of the response come from
+	lastSeqWords string
 }
 
 func main() {
@@ -190,7 +192,7 @@ type env struct {
 	bytesL map[types.Object]string // locals holding a byte-string derived from a field: "hexdec:<path>"
 	writer types.Object
 	reader types.Object
-	loopIx types.Object // index variable of the enclosing counted loop
+	loopIx types.Object              // index variable of the enclosing counted loop
 	alias  map[types.Object]ast.Expr // decode helpers: `raw := b.ReadX(n)` used once in the returned expression
 }
 
@@ -432,7 +434,6 @@ func constInt(e *env, x ast.Expr) (int64, bool) {
 	return 0, false
 }
 
-
 // bindCall prepares the environment for inlining a call to a library function whose body is
 // available: every parameter is bound to what the argument denotes in the caller — the writer, the
 // reader, (part of) the PDU value (`p.Header`, `&p.Header`, `p`), an integer expression, or the raw
@@ -495,7 +496,6 @@ func isByteSlice(t types.Type) bool {
 	b, ok := sl.Elem().Underlying().(*types.Basic)
 	return ok && b.Kind() == types.Uint8
 }
-
 
 // deref follows `x` to the expression it was defined by (decode helpers only)
 func (w *world) deref(e *env, x ast.Expr) ast.Expr {
@@ -1109,7 +1109,6 @@ func (w *world) assignRead(e *env, path string, lhsT types.Type, rhs ast.Expr) (
 	}
 	return "", false
 }
-
 
 // isReaderCall: `<reader>.<name>()`
 func (w *world) isReaderCall(e *env, x ast.Expr, name string) bool {
